@@ -18,6 +18,8 @@ import ast
 
 from ..core import AnalysisError, Finding, attr_chain, call_name, canon, dominating_guards, norm, walk_no_nested
 from ..dataflow import ReachingDefs
+from ..flowtools import backward_slice, collected, exists_form, truth_dnf
+from ..core import helper_table
 
 SH = "commonroad/geometry/shape.py"
 LA = "commonroad/scenario/lanelet.py"
@@ -34,33 +36,42 @@ def calls_in(fn, pred):
 
 def lookup_rules(repo, res, RULE="G3-LOOKUP"):
     """the two spatial lookups filter candidates by geometry and map them to lanelet ids consistently
-    (shared with C07, whose assignment sets are exactly the results of these lookups)"""
+    (shared with C07, whose assignment sets are exactly the results of these lookups).  Decided on normal forms
+    (sa/flowtools): loops or comprehensions, hoisted locals and extracted single-return helpers are all the same."""
+    from ..core import helper_table
+    from ..flowtools import collected
+
     lmod = repo.mod(LA)
+    net = repo.cls(LA, "LaneletNetwork")
     fs = repo.method(LA, "LaneletNetwork", "find_lanelet_by_shape")
     q = "LaneletNetwork.find_lanelet_by_shape"
+    hp = helper_table(net, lmod, fs, repo)
     rd = ReachingDefs(fs)
-    loops = [n for n in walk_no_nested(fs) if isinstance(n, ast.For)]
-    ok = len(loops) == 1 and isinstance(loops[0].iter, ast.Call) and norm(loops[0].iter.func) == "self._strtee.query" and len(loops[0].iter.args) == 1 and not loops[0].iter.keywords
-    qarg = norm(loops[0].iter.args[0]) if ok else None
-    res.check(RULE, "find_lanelet_by_shape queries the tree with the shape's geometry", ok and qarg == "%s.shapely_object" % fs.args.args[1].arg, lmod, fs, "find_lanelet_by_shape query %s" % qarg, "the tree is not queried with the geometry of the given shape", qualname=q)
-    appends = calls_in(fs, lambda c: isinstance(c.func, ast.Attribute) and c.func.attr == "append")
+    sp = fs.args.args[1].arg
+    cols, _rn = collected(lmod, fs, rd, [sp], hp)
+    QS = "self.strtee.query(%s.shapely_object)" % sp
+    ok = len(cols) == 1 and len(cols[0].iters) == 1 and cols[0].iters[0][1] == QS
+    res.check(RULE, "find_lanelet_by_shape collects over the tree candidates of the shape's geometry", ok, lmod, fs, "find_lanelet_by_shape iterates %s" % ([c.iters and c.iters[-1][1] for c in cols]), "the tree is not queried with the geometry of the given shape (or the result is not built from the candidates)", qualname=q)
     ok2 = False
-    if ok and len(appends) == 1:
-        a = appends[0]
-        inner = a.args[0]
-        guards = [(norm(t), pol) for t, pol in dominating_guards(lmod, a, stop=fs)]
-        if isinstance(inner, ast.Call) and norm(inner.func) == "self._get_lanelet_id_by_shapely_polygon" and isinstance(inner.args[0], ast.Name):
-            g = inner.args[0].id
-            defs = [norm(d.node) for d in rd.defs(g, a) if d.node is not None]
-            ok2 = defs == ["self._strtee.geometries[%s]" % loops[0].target.id] and ("%s.intersects(%s)" % (g, qarg), True) in guards
-    res.check(RULE, "find_lanelet_by_shape keeps candidates that intersect the queried geometry and maps them by the id map", ok2, lmod, fs, "find_lanelet_by_shape filter", "candidates are not filtered by `intersects` against the very geometry queried with, or the hit is mapped through another object", qualname=q)
-    rets = [n for n in walk_no_nested(fs) if isinstance(n, ast.Return)]
-    res.check(RULE, "find_lanelet_by_shape returns the collected ids", len(rets) == 1 and len(appends) == 1 and norm(rets[0].value) == norm(appends[0].func.value), lmod, fs, "find_lanelet_by_shape return", "the collected ids are not what is returned", qualname=q)
+    ok3 = False
+    if ok:
+        c = cols[0]
+        v = c.iters[0][0]
+        G = "self.strtee.geometries[%s]" % v
+        ok2 = any(p and t == "%s.intersects(%s.shapely_object)" % (G, sp) for t, p, _n in c.guards)
+        et = canon(c.elem, rd, rd.stmt_of(c.node) if not isinstance(c.node, ast.stmt) else c.node, [sp], hp)
+        ok3 = et == canon(ast.parse("self._get_lanelet_id_by_shapely_polygon(self._strtee.geometries[%s])" % v, mode="eval").body, None, None, [sp], hp)
+    res.check(RULE, "find_lanelet_by_shape keeps exactly the candidates whose polygon intersects the queried geometry", ok2, lmod, fs, "find_lanelet_by_shape filter %s" % ([t for cc in cols for t, p, _n in cc.guards]), "candidates (bounding-box hits) are not filtered by `intersects` against the very geometry queried with", qualname=q)
+    res.check(RULE, "find_lanelet_by_shape maps each kept candidate through the id map", ok3, lmod, fs, "find_lanelet_by_shape element %s" % ([norm(cc.elem)[:70] for cc in cols]), "a hit is mapped to a lanelet id through another object than the polygon that was tested", qualname=q)
+    # ---- by position
     fp = repo.method(LA, "LaneletNetwork", "find_lanelet_by_position")
     q = "LaneletNetwork.find_lanelet_by_position"
+    hp2 = helper_table(net, lmod, fp, repo)
+    rdp = ReachingDefs(fp)
+    pp = fp.args.args[1].arg
     qs = calls_in(fp, lambda c: norm(c.func) == "self._strtee.query")
     ok = len(qs) == 1
-    pred = dist = None
+    pred = None
     if ok:
         kw = {k.arg: k.value for k in qs[0].keywords}
         pred = kw.get("predicate")
@@ -68,43 +79,57 @@ def lookup_rules(repo, res, RULE="G3-LOOKUP"):
         pv = pred.value if isinstance(pred, ast.Constant) else None
         ok = pv in ("dwithin", "intersects", "covered_by")
         if pv == "dwithin":
-            rdp = ReachingDefs(fp)
             dv = None
-            if isinstance(dist, ast.Constant):
-                dv = dist.value
-            elif isinstance(dist, ast.Name):
-                ds = [d.node for d in rdp.defs(dist.id, qs[0]) if d.node is not None]
-                if len(ds) == 1 and isinstance(ds[0], ast.Constant):
-                    dv = ds[0].value
-            ok = ok and isinstance(dv, float) and 0 <= dv <= 1e-9
-        pts = [n for n in walk_no_nested(fp) if isinstance(n, ast.Assign) and isinstance(n.targets[0], ast.Name) and n.targets[0].id == norm(qs[0].args[0])]
-        ok = ok and len(pts) == 1 and norm(pts[0].value) == "[ShapelyPoint(p) for p in %s]" % fp.args.args[1].arg
+            if dist is not None:
+                dt = canon(dist, rdp, rdp.stmt_of(qs[0]), [pp], hp2)
+                try:
+                    dv = float(dt)
+                except ValueError:
+                    dv = None
+            ok = ok and dv is not None and 0 <= dv <= 1e-9
+        pts = canon(qs[0].args[0], rdp, rdp.stmt_of(qs[0]), [pp], hp2) if qs[0].args else ""
+        ok = ok and pts in ("[ShapelyPoint(p) for p in %s]" % pp, "[shapely.geometry.Point(p) for p in %s]" % pp) or (ok and pts.startswith("[") and pts.endswith("for p in %s]" % pp) and "Point(p)" in pts)
     res.check(RULE, "find_lanelet_by_position queries all points with a boundary-inclusive predicate", ok, lmod, fp, "find_lanelet_by_position query predicate=%s" % (norm(pred) if pred is not None else None), "points on a lanelet boundary (or inside) are not reported, or not every query point is looked up", qualname=q)
-    loops = [n for n in walk_no_nested(fp) if isinstance(n, ast.For)]
     ok = False
-    if len(loops) == 1 and isinstance(loops[0].target, ast.Tuple) and len(loops[0].target.elts) == 2 and qs:
-        inp, geo = [e.id for e in loops[0].target.elts]
-        qres = [n.targets[0].id for n in walk_no_nested(fp) if isinstance(n, ast.Assign) and n.value is qs[0] and isinstance(n.targets[0], ast.Name)]
-        body = " ; ".join(norm(s) for s in loops[0].body)
-        ok = bool(qres) and norm(loops[0].iter) == "zip(*%s)" % qres[0]
-        ok = ok and "self._strtee.geometries[%s]" % geo in body and "self._get_lanelet_id_by_shapely_polygon(" in body and "[%s].append(" % inp in body
+    if qs:
+        Q = canon(qs[0], rdp, rdp.stmt_of(qs[0]), [pp], hp2)
+        pair_loops = []
+        for n in ast.walk(fp):
+            if isinstance(n, ast.For):
+                it = canon(n.iter, rdp, n, [pp], hp2)
+                if it in ("zip(*%s)" % Q, "zip(%s[0], %s[1])" % (Q, Q)) and isinstance(n.target, ast.Tuple) and len(n.target.elts) == 2:
+                    pair_loops.append(n)
+        if len(pair_loops) == 1:
+            lp = pair_loops[0]
+            inp, geo = [e.id for e in lp.target.elts]
+            want = canon(ast.parse("self._get_lanelet_id_by_shapely_polygon(self._strtee.geometries[%s])" % geo, mode="eval").body, None, None, [pp], hp2)
+            hits = []
+            for c in ast.walk(lp):
+                if isinstance(c, ast.Call) and isinstance(c.func, ast.Attribute) and c.func.attr == "append" and isinstance(c.func.value, ast.Subscript) and norm(c.func.value.slice) == inp and len(c.args) == 1:
+                    hits.append(canon(c.args[0], rdp, rdp.stmt_of(c), [pp], hp2) == want)
+            ok = hits == [True]
     res.check(RULE, "find_lanelet_by_position pairs (input index, tree index) and maps hits by the id map", ok, lmod, fp, "find_lanelet_by_position mapping", "hits are attributed to the wrong query point or mapped to the wrong lanelet id", qualname=q)
+    # one answer per query point, in order
     rets = [n for n in walk_no_nested(fp) if isinstance(n, ast.Return)]
     ok = False
     if len(rets) == 1:
         rv = rets[0].value
+        comps = []
         if isinstance(rv, ast.Name):
-            rdp = ReachingDefs(fp)
-            ds = [d.node for d in rdp.defs(rv.id, rets[0]) if d.node is not None]
-            rv = ds[0] if len(ds) == 1 else rv
-        t = norm(rv)
-        ok = isinstance(rv, ast.ListComp) and "enumerate(%s)" % fp.args.args[1].arg in t and not rv.generators[0].ifs
+            for d in rdp.defs(rv.id, rets[0]):
+                if d.node is not None:
+                    comps.append(d.node)
+        else:
+            comps.append(rv)
+        ok = bool(comps)
+        for cmp_ in comps:
+            good = isinstance(cmp_, ast.ListComp) and len(cmp_.generators) == 1 and not cmp_.generators[0].ifs and norm(cmp_.generators[0].iter) in (pp, "enumerate(%s)" % pp, "range(len(%s))" % pp)
+            ok = ok and good
     res.check(RULE, "find_lanelet_by_position answers once per query point, in order", ok, lmod, fp, "find_lanelet_by_position result", "the result list is not aligned with the list of query points", qualname=q)
     gi = repo.method(LA, "LaneletNetwork", "_get_lanelet_id_by_shapely_polygon")
     rets = [n for n in walk_no_nested(gi) if isinstance(n, ast.Return)]
-    ok = len(rets) == 1 and norm(rets[0].value) == "self._lanelet_id_index_by_id[id(%s)]" % gi.args.args[1].arg
+    ok = len(rets) == 1 and canon(rets[0].value, ReachingDefs(gi), rets[0], [gi.args.args[1].arg]) == "self.lanelet_id_index_by_id[id(%s)]" % gi.args.args[1].arg
     res.check(RULE, "_get_lanelet_id_by_shapely_polygon reads the id map by id(polygon)", ok, lmod, gi, "_get_lanelet_id_by_shapely_polygon", "tree geometries are mapped to lanelet ids by another key than the one the map is built with", qualname="LaneletNetwork._get_lanelet_id_by_shapely_polygon")
-
     return fs
 
 
@@ -134,14 +159,14 @@ def run(repo, res, tier):
     rets = [n for n in walk_no_nested(so) if isinstance(n, ast.Return)]
     res.check("G1-SHAPE-AGREE", "Circle.shapely_object returns the buffered disc", len(rets) == 1 and slot is not None and C(rets[0].value, so) == slot.replace("self._", "self."), smod, so, "Circle.shapely_object", "shapely_object does not return the geometry built from radius and centre", qualname="Circle.shapely_object")
     cp = circ.methods["contains_point"]
-    rets = [n for n in walk_no_nested(cp) if isinstance(n, ast.Return)]
-    ok = False
-    if len(rets) == 1:
-        t = C(rets[0].value, cp)
-        pn = cp.args.args[1].arg
-        dist = ("np.linalg.norm(%s - self.center)" % pn, "np.linalg.norm(self.center - %s)" % pn)
-        ok = any(t in ("np.greater_equal(self.radius, %s)" % d, "np.less_equal(%s, self.radius)" % d, "%s <= self.radius" % d, "self.radius >= %s" % d) for d in dist)
-    res.check("G1-SHAPE-AGREE", "Circle.contains_point: |p - centre| <= radius (closed)", ok, smod, cp, "Circle.contains_point: %s" % (norm(rets[0].value) if rets else "?"), "the containment predicate is not the closed disc of the circle's radius around its centre", qualname="Circle.contains_point")
+    pn = cp.args.args[1].arg
+    dnf = truth_dnf(smod, cp, ReachingDefs(cp), [pn], helper_table(circ, smod, cp, repo))
+    dist = ("np.linalg.norm(%s - self.center)" % pn, "np.linalg.norm(self.center - %s)" % pn)
+    accepted = set()
+    for d in dist:
+        accepted |= {"np.greater_equal(self.radius, %s)" % d, "np.less_equal(%s, self.radius)" % d, "%s <= self.radius" % d}
+    ok = len(dnf) == 1 and len(dnf[0]) == 1 and dnf[0][0][1] and dnf[0][0][0] in accepted
+    res.check("G1-SHAPE-AGREE", "Circle.contains_point: |p - centre| <= radius (closed)", ok, smod, cp, "Circle.contains_point: %s" % dnf, "the containment predicate is not the closed disc of the circle's radius around its centre", qualname="Circle.contains_point")
     dr = circ.methods["draw"]
     de = calls_in(dr, lambda c: isinstance(c.func, ast.Attribute) and c.func.attr == "draw_ellipse")
     ok = len(de) == 1 and [C(a, dr) for a in de[0].args[:3]] == ["self.center", "self.radius", "self.radius"]
@@ -201,9 +226,11 @@ def run(repo, res, tier):
     rets = [n for n in walk_no_nested(so) if isinstance(n, ast.Return)]
     res.check("G1-SHAPE-AGREE", "Rectangle.shapely_object returns that polygon", len(rets) == 1 and C(rets[0].value, so) == "self.shapely_polygon", smod, so, "Rectangle.shapely_object", "shapely_object does not return the polygon of the vertices", qualname="Rectangle.shapely_object")
     cp = rect.methods["contains_point"]
-    rets = [n for n in walk_no_nested(cp) if isinstance(n, ast.Return)]
-    ok = len(rets) == 1 and C(rets[0].value, cp) in ("self.shapely_polygon.intersects(shapely.geometry.Point(%s))" % cp.args.args[1].arg, "self.shapely_object.intersects(shapely.geometry.Point(%s))" % cp.args.args[1].arg)
-    res.check("G1-SHAPE-AGREE", "Rectangle.contains_point = geometry.intersects(point)", ok, smod, cp, "Rectangle.contains_point", "containment is not decided on the exported geometry (boundary included)", qualname="Rectangle.contains_point")
+    pn = cp.args.args[1].arg
+    dnf = truth_dnf(smod, cp, ReachingDefs(cp), [pn], helper_table(rect, smod, cp, repo))
+    geo = {"self.shapely_polygon.intersects(shapely.geometry.Point(%s))" % pn, "self.shapely_object.intersects(shapely.geometry.Point(%s))" % pn, "self.shapely_polygon.covers(shapely.geometry.Point(%s))" % pn}
+    ok = len(dnf) == 1 and len(dnf[0]) == 1 and dnf[0][0][1] and dnf[0][0][0] in geo
+    res.check("G1-SHAPE-AGREE", "Rectangle.contains_point = geometry.intersects(point)", ok, smod, cp, "Rectangle.contains_point: %s" % dnf, "containment is not decided on the exported geometry (boundary included)", qualname="Rectangle.contains_point")
     dr = rect.methods["draw"]
     ok = any(isinstance(c, ast.Call) and isinstance(c.func, ast.Attribute) and c.func.attr == "draw_rectangle" and C(c.args[0], dr) == "self.vertices" for c in walk_no_nested(dr))
     res.check("G1-SHAPE-AGREE", "Rectangle.draw draws self.vertices", ok, smod, dr, "Rectangle.draw", "the drawn ring is not the rectangle's vertex ring", qualname="Rectangle.draw")
@@ -222,22 +249,15 @@ def run(repo, res, tier):
     rets = [n for n in walk_no_nested(so) if isinstance(n, ast.Return)]
     res.check("G1-SHAPE-AGREE", "Polygon.shapely_object returns that polygon", len(rets) == 1 and C(rets[0].value, so) == "self.shapely_polygon", smod, so, "Polygon.shapely_object", "shapely_object does not return the polygon of the vertices", qualname="Polygon.shapely_object")
     cp = poly.methods["contains_point"]
-    rets = [n for n in walk_no_nested(cp) if isinstance(n, ast.Return)]
-    ok = len(rets) == 1 and "self.shapely_polygon.intersects(shapely.geometry.Point(%s))" % cp.args.args[1].arg in C(rets[0].value, cp)
-    inner = [n for n in ast.walk(cp) if isinstance(n, ast.FunctionDef) and n is not cp]
-    if inner:
-        t = " ".join(norm(r.value) for f in inner for r in ast.walk(f) if isinstance(r, ast.Return))
-        t = t.replace("self._", "self.")
-        ok = ok and "np.less_equal(self.min, point)" in t and "np.less_equal(point, self.max)" in t and " and " in t
-    res.check("G1-SHAPE-AGREE", "Polygon.contains_point = bbox(closed) and geometry.intersects(point)", ok, smod, cp, "Polygon.contains_point", "containment is not decided on the exported geometry with a closed bounding-box pre-filter", qualname="Polygon.contains_point")
+    pn = cp.args.args[1].arg
+    dnf = truth_dnf(smod, cp, ReachingDefs(cp), [pn], helper_table(poly, smod, cp, repo))
+    geo = {"self.shapely_polygon.intersects(shapely.geometry.Point(%s))" % pn, "self.shapely_object.intersects(shapely.geometry.Point(%s))" % pn, "self.shapely_polygon.covers(shapely.geometry.Point(%s))" % pn}
+    bbox = {"all(np.less_equal(self.min, %s))" % pn, "all(np.less_equal(%s, self.max))" % pn, "all(np.greater_equal(%s, self.min))" % pn, "all(np.greater_equal(self.max, %s))" % pn, "np.all(self.min <= %s)" % pn, "np.all(%s <= self.max)" % pn, "np.less_equal(self.min, %s).all()" % pn, "np.less_equal(%s, self.max).all()" % pn}
+    ok = len(dnf) == 1 and all(p for _t, p in dnf[0]) and sum(1 for t, _p in dnf[0] if t in geo) == 1 and all(t in geo or t in bbox for t, _p in dnf[0])
+    res.check("G1-SHAPE-AGREE", "Polygon.contains_point = bbox(closed) and geometry.intersects(point)", ok, smod, cp, "Polygon.contains_point: %s" % dnf, "containment is not decided on the exported geometry with a closed bounding-box pre-filter", qualname="Polygon.contains_point")
     sg = repo.cls(SH, "ShapeGroup").methods["contains_point"]
-    loops = [n for n in walk_no_nested(sg) if isinstance(n, ast.For)]
-    ok = len(loops) == 1 and norm(loops[0].iter) in ("self._shapes", "self.shapes")
-    if ok:
-        tests = [n for n in ast.walk(loops[0]) if isinstance(n, ast.If)]
-        ok = len(tests) == 1 and norm(tests[0].test) == "%s.contains_point(point)" % loops[0].target.id and isinstance(tests[0].body[0], ast.Return) and norm(tests[0].body[0].value) == "True"
-        last = [s for s in sg.body if isinstance(s, ast.Return)]
-        ok = ok and len(last) == 1 and norm(last[0].value) == "False"
+    ex = exists_form(smod, sg, ReachingDefs(sg), [sg.args.args[1].arg], None)
+    ok = ex is not None and ex[0] == "self.shapes" and norm(ex[2]) == "%s.contains_point(%s)" % (ex[1], sg.args.args[1].arg)
     res.check("G1-SHAPE-AGREE", "ShapeGroup.contains_point = any member contains", ok, smod, sg, "ShapeGroup.contains_point", "a shape group is not the union of its members", qualname="ShapeGroup.contains_point")
 
     # ---------------------------------------------------------------- G2
@@ -326,17 +346,47 @@ def run(repo, res, tier):
             _o, p = repo.find_prop(sc, "shapely_object")
             res.check("G4-PROTOCOL", "%s (admitted query shape) exports shapely_object" % sc.name, p is not None and "get" in p, lmod, fs, "find_lanelet_by_shape admits %s" % sc.name, "%s is accepted as query shape but has no shapely_object: the lookup raises AttributeError" % sc.name, qualname="LaneletNetwork.find_lanelet_by_shape")
     go = lan.methods["get_obstacles"]
-    t = " ; ".join(norm(s) for s in go.body)
-    ok = "self._polygon.shapely_object" in t and ".occupancy_at_time(time_step).shape" in t and "sh.shapely_object for sh in o_shape.shapes" in t and "o_shape.shapely_object" in t
-    inter = [n for n in walk_no_nested(go) if isinstance(n, ast.Call) and isinstance(n.func, ast.Attribute) and n.func.attr == "intersects"]
-    ok = ok and len(inter) == 1
+    rdg = ReachingDefs(go)
+    hpg = helper_table(lan, lmod, go, repo)
+    from ..dataflow import Provenance as _Prov
+
+    provg = _Prov(go, rdg)
+    op, tpar = go.args.args[1].arg, go.args.args[2].arg
+    cols, _rn = collected(lmod, go, rdg, [op, tpar], hpg)
+    ok = len(cols) == 1 and len(cols[0].iters) >= 1 and cols[0].iters[0][1] == op and norm(cols[0].elem) == cols[0].iters[0][0]
+    res.check("G4-PROTOCOL", "Lanelet.get_obstacles returns candidates of the given obstacle list", ok, lmod, go, "Lanelet.get_obstacles collects %s over %s" % ([norm(c.elem) for c in cols], [c.iters and c.iters[0][1] for c in cols]), "the answer is not a selection of the given obstacles", qualname="Lanelet.get_obstacles")
+    inter = [n for n in ast.walk(go) if isinstance(n, ast.Call) and isinstance(n.func, ast.Attribute) and n.func.attr == "intersects"]
+    ok = len(inter) == 1
+    if ok and cols:
+        ic = inter[0]
+        sides = [ic.func.value] + list(ic.args)
+        own = [x for x in sides if canon(x, rdg, rdg.stmt_of(ic), [op, tpar], hpg) in ("self.polygon.shapely_object",)]
+        other = [x for x in sides if x not in own]
+        lv = cols[0].iters[0][0]
+        occ_ok = False
+        for x in other:
+            for e in backward_slice(go, rdg, x, hpg, provg):
+                for c in ast.walk(e):
+                    if isinstance(c, ast.Call) and isinstance(c.func, ast.Attribute) and c.func.attr == "occupancy_at_time" and norm(c.func.value) == lv and [norm(a) for a in c.args] == [tpar]:
+                        occ_ok = True
+        # the selection is conditional on that test
+        ict = canon(ic, rdg, rdg.stmt_of(ic), [op, tpar], hpg)
+        cond = any(ict in t for t, p, _n in cols[0].guards if p)
+        ok = len(own) == 1 and occ_ok and cond
     res.check("G4-PROTOCOL", "Lanelet.get_obstacles intersects the lanelet polygon with the occupancy shape(s) at the time step", ok, lmod, go, "Lanelet.get_obstacles", "obstacles are not mapped by intersecting their occupancy with the lanelet polygon", qualname="Lanelet.get_obstacles")
     cpz = lan.methods["contains_points"]
-    rets = [n for n in walk_no_nested(cpz) if isinstance(n, ast.Return)]
-    ok = len(rets) == 1 and norm(rets[0].value) in ("[self._polygon.contains_point(p) for p in point_list]", "[self.polygon.contains_point(p) for p in point_list]")
+    pl = cpz.args.args[1].arg
+    cols, _rn = collected(lmod, cpz, ReachingDefs(cpz), [pl], helper_table(lan, lmod, cpz, repo))
+    ok = len(cols) == 1 and len(cols[0].iters) == 1 and cols[0].iters[0][1] == pl and not cols[0].guards and canon(cols[0].elem, None, None, [pl]) == "self.polygon.contains_point(%s)" % cols[0].iters[0][0]
     res.check("G4-PROTOCOL", "Lanelet.contains_points asks the lanelet polygon for every point", ok, lmod, cpz, "Lanelet.contains_points", "point containment is not decided by the lanelet polygon, or not per point", qualname="Lanelet.contains_points")
     mo = net.methods["map_obstacles_to_lanelets"]
-    t = " ; ".join(norm(s) for s in mo.body)
-    ok = "for la in self.lanelets" in t and "la.get_obstacles(obstacles)" in t and "mapping[la.lanelet_id] = mapped_objs" in t
+    rdm = ReachingDefs(mo)
+    obp = mo.args.args[1].arg
+    loops = [n for n in walk_no_nested(mo) if isinstance(n, ast.For) and canon(n.iter, rdm, n, [obp]) in ("self.lanelets", "self.lanelets.values()")]
+    ok = len(loops) == 1
+    if ok:
+        lv = norm(loops[0].target)
+        stores = [st for st in ast.walk(loops[0]) if isinstance(st, ast.Assign) and isinstance(st.targets[0], ast.Subscript)]
+        ok = len(stores) == 1 and canon(stores[0].targets[0].slice, rdm, stores[0], [obp]) == "%s.lanelet_id" % lv and canon(stores[0].value, rdm, stores[0], [obp]) == "%s.get_obstacles(%s)" % (lv, obp)
     res.check("G4-PROTOCOL", "map_obstacles_to_lanelets asks every lanelet and keys by its id", ok, lmod, mo, "map_obstacles_to_lanelets", "the obstacle map is not built from every lanelet's own answer", qualname="LaneletNetwork.map_obstacles_to_lanelets")
     return {}
